@@ -1,5 +1,5 @@
 CONSTANTS ListCap = 8  InitSetLg = 5  SetLgOff = 3  AuxToken = 15  MaxVal = 63
-          Check = {"C01", "C02", "C03", "C11", "C18"}
+          Check = {"C01", "C02", "C03", "C11", "C12", "C13", "C18"}
 SPECIFICATION TSpec
 POSTCONDITION Accepted
 CHECK_DEADLOCK FALSE
